@@ -392,6 +392,10 @@ def judge_ms(seq, n_full, CC, h, tag):
             if not same:
                 d2e_inputs.append(('aware', ref_aw))      # otherwise 'roundtrip' IS the aware call
             d2e_inputs.append(('naive', ref_nv))
+            # other UTC-aware forms of the same datetime: a fixed zero offset, and the UTC zone object of zoneinfo
+            d2e_inputs.append(('aware-zero-offset', ref_nv.replace(tzinfo=datetime.timezone(datetime.timedelta(0)))))
+            if _ZI_UTC is not None:
+                d2e_inputs.append(('aware-zoneinfo', ref_nv.replace(tzinfo=_ZI_UTC)))
         direct = None
         direct_ok = {}
         for form, arg in d2e_inputs:
@@ -794,6 +798,13 @@ def _nontrivial_ms(ms):
 
 
 TZS = ['PST8PDT', 'XJP-9', 'XNP-5:45', 'UTC0']
+
+
+try:
+    import zoneinfo
+    _ZI_UTC = zoneinfo.ZoneInfo('UTC')
+except Exception:          # no time-zone database in this environment: the form is not explored
+    _ZI_UTC = None
 
 
 def run_case(case):        # a case with a 'tz' key runs under that process time zone (mc.engine.call_case)
